@@ -1,4 +1,5 @@
 import PyGam.Proofs.Penalty
+import PyGam.Proofs.Kron
 import Mathlib.Algebra.Order.Ring.Defs
 import Mathlib.Tactic.Positivity
 /-!
@@ -113,6 +114,83 @@ theorem cycPen_psd (n d : Nat) (c : Nat → α) : 0 ≤ quadForm n (cycPen n d) 
 theorem l2Pen_psd (n : Nat) (c : Nat → α) : 0 ≤ quadForm n (l2Pen (α := α)) c := by
   rw [quadForm_l2]; exact sum_nonneg (fun k _ => sq_nonneg _)
 end ordered
+
+/-! ### term level: `build_penalties` of terms, tensor terms and term lists -/
+section terms
+variable [CommRing α]
+
+/-- 'auto' resolves to the derivative penalty for a numerical (`ps`) spline term … -/
+theorem auto_spline_ps (m : Marg α) (hk : m.kind = .spline) (hc : m.cyclic = false) :
+    m.resolvePen .auto = .derivative := by simp [Marg.resolvePen, hk, hc]
+/-- … to the periodic penalty for a cyclic (`cp`) spline term … -/
+theorem auto_spline_cp (m : Marg α) (hk : m.kind = .spline) (hc : m.cyclic = true) :
+    m.resolvePen .auto = .periodic := by simp [Marg.resolvePen, hk, hc]
+/-- … and to the ridge penalty for linear and factor terms -/
+theorem auto_linear (m : Marg α) (hk : m.kind = .linear) : m.resolvePen .auto = .l2 := by
+  simp [Marg.resolvePen, hk]
+theorem auto_factor (m : Marg α) (hk : m.kind = .factor) : m.resolvePen .auto = .l2 := by
+  simp [Marg.resolvePen, hk]
+
+/-- a term's penalty is the sum of its penalties, each multiplied by its own lam -/
+theorem term_penalty_quadForm (per : Nat → Nat → Nat → α) (m : Marg α) (c : Nat → α) :
+    quadForm m.nCoefs (m.penalty per) c
+      = ((m.lam.zip m.penalties).map
+          (fun lk => lk.1 * quadForm m.nCoefs (penMatrix per m.nCoefs (m.resolvePen lk.2)) c)).sum := by
+  unfold Marg.penalty
+  rw [quadForm_weightedPenSum, List.map_map]; rfl
+
+/-- the default penalty of a numerical spline term is `lam ×` the sum of squared second differences -/
+theorem default_spline_penalty (per : Nat → Nat → Nat → α) (m : Marg α) (lam : α)
+    (hk : m.kind = .spline) (hc : m.cyclic = false) (hl : m.lam = [lam]) (hp : m.penalties = [.auto])
+    (c : Nat → α) :
+    quadForm m.nCoefs (m.penalty per) c
+      = lam * ∑ k ∈ range (m.nCoefs - 2), (iterDiffVec 2 c k) ^ 2 := by
+  rw [term_penalty_quadForm, hl, hp]
+  simp [auto_spline_ps m hk hc, penMatrix, quadForm_derivPen]
+
+/-- a two-way tensor term: the penalty is the sum of the marginal penalties lifted by Kronecker products,
+i.e. the marginal roughness of every fibre of the coefficient array, in the row-major coefficient order
+`i_a m_b + i_b` of the model-matrix columns (C16 `tensor_two`) -/
+theorem tensor_two_quadForm (per : Nat → Nat → Nat → α) (a b : Marg α) (c : Nat → α) :
+    quadForm (a.nCoefs * b.nCoefs) (tensorPenalty per [a, b]) c
+      = ∑ j ∈ range b.nCoefs, quadForm a.nCoefs (a.penalty per) (fun i => c (i * b.nCoefs + j))
+        + ∑ i ∈ range a.nCoefs, quadForm b.nCoefs (b.penalty per) (fun j => c (i * b.nCoefs + j)) := by
+  have h : tensorPenalty per [a, b] = fun i j =>
+      kronMat (a.penalty per) b.nCoefs (ident (α := α)) i j
+        + kronMat (ident (α := α)) b.nCoefs (b.penalty per) i j := by
+    funext i j
+    simp [tensorPenalty, tensorPenaltyAt, margPenLift, List.range_succ]
+  rw [h, quadForm_add, quadForm_kron_left, quadForm_kron_right]
+
+/-- adding one more marginal lifts every existing marginal penalty by `⊗ I` … -/
+theorem margPenLift_append (per : Nat → Nat → Nat → α) (i : Nat) (ms : List (Marg α)) (m : Marg α) :
+    ∀ (acc : Nat → Nat → α) (pos : Nat),
+      margPenLift per i acc pos (ms ++ [m])
+        = kronMat (margPenLift per i acc pos ms) m.nCoefs
+            (if pos + ms.length = i then m.penalty per else ident) := by
+  induction ms with
+  | nil => intro acc pos; simp [margPenLift]
+  | cons a ms ih =>
+    intro acc pos
+    simp only [List.cons_append, margPenLift, List.length_cons]
+    rw [ih]
+    have : pos + 1 + ms.length = pos + (ms.length + 1) := by omega
+    rw [this]
+
+/-- the model penalty is block-diagonal in term order … -/
+theorem list_penalty_quadForm (per : Nat → Nat → Nat → α) (t : Term α) (ts : List (Term α)) (c : Nat → α) :
+    quadForm (nCoefsAll (t :: ts)) (penaltyAll per (t :: ts)) c
+      = quadForm t.nCoefs (t.penalty per) c
+        + quadForm (nCoefsAll ts) (penaltyAll per ts) (fun k => c (t.nCoefs + k)) := by
+  simp only [nCoefsAll, penaltyAll, List.map_cons, List.sum_cons]
+  exact quadForm_blockDiag_cons _ _ _ _ c
+
+/-- … with a zero block for the intercept -/
+theorem intercept_unpenalised (per : Nat → Nat → Nat → α) (c : Nat → α) :
+    quadForm 1 ((Term.intercept : Term α).penalty per) c = 0 := by
+  simp [Term.penalty, quadForm, sumTo]
+
+end terms
 
 /-- non-vacuity: a concrete instance (n = 5, d = 2, c = squares) evaluates as stated -/
 example : quadForm 5 (derivPen (α := Int) 5 2) (fun k => (k:Int)^2) = 12 := by decide
